@@ -639,8 +639,20 @@ func rulesC14(w *World, o *Out) {
 				if key != nil {
 					exact := false
 					if c, ok := canon(key).(*ssa.Call); ok {
-						if cal, ok := CalleeOf(c.Common()); ok && cal.Name == "GetSenderAddress" {
-							exact = true
+						if cal, ok := CalleeOf(c.Common()); ok {
+							switch cal.Name {
+							case "GetSenderAddress":
+								exact = true
+							case "EncodeToString", "Hex", "String":
+								// an injective spelling of the same address
+								if args := c.Common().Args; len(args) == 1 {
+									if ic, ok := canon(args[0]).(*ssa.Call); ok {
+										if ical, ok := CalleeOf(ic.Common()); ok && ical.Name == "GetSenderAddress" {
+											exact = true
+										}
+									}
+								}
+							}
 						}
 					}
 					o.Check("C14.R3", "IsOldestMsgPerSender|the table key is the sender address alone"+ordSuffix(nKey), exact, w.Pos(in.Pos()),
